@@ -32,6 +32,18 @@ def run(ctx: evid.Ctx) -> None:
         ctx.add("transitions", steps)
         for (p, k), e in viols.items():
             ctx.violation(k, e["what"], {"role": role, "K": 10**9, "history": [list(x) for x in e["history"]]}, e["count"])
+    # "a refused call leaves the outgoing byte stream exactly as it was" with the stream only PARTLY drained: the search of
+    # C12 (sends, refused sends and drains of every amount interleaved), of which the refused-call findings belong here
+    from vf.checks import c12
+
+    for role in ROLES:
+        st = c12.explore(role, 2, 20000)
+        ctx.add("states", st["states"])
+        ctx.add("transitions", st["transitions"])
+        ctx.add("partly_drained_states", st["states"])
+        for k, e in st["viol"].items():
+            if ":refused" in k or "refused" in e["what"][:60]:
+                ctx.violation(f"partly-drained:{k}", e["what"], {"role": role, "history": e["history"], "c12": True}, e["count"])
     # the TLA+ model of the documented life cycle: TLC checks the clauses on the model, the product search binds it to the code
     tlalc.check(ctx, PROP, ROLES, 3 if ctx.tier == "thorough" else 2)
     ctx.counters["evaluations"] = ctx.counters.get("transitions", 0)
@@ -55,4 +67,8 @@ def run(ctx: evid.Ctx) -> None:
 def replay(case: t.Dict[str, t.Any], key: t.Optional[str] = None) -> t.Tuple[bool, str]:
     if case.get("tla"):
         return tlalc.replay(case, PROP, key)
+    if case.get("c12"):
+        from vf.checks import c12
+
+        return c12.replay_case(case)
     return sess.replay_history(case["role"], case["history"], case["K"], PROP, key, case.get("id_base", 0))
